@@ -329,7 +329,11 @@ impl ZchState {
         // chord using fewer keys, but user has still held that chord and pressed further keys,
         // activating a chord with the same+extra keys.
         let mut activation = Neither;
-        if let Some(pchords) = &self.zchd.zchd_prioritized_chords {
+        // Followup chords activate only after all keys of the prior chord have been released.
+        if let (Some(pchords), 0) = (
+            &self.zchd.zchd_prioritized_chords,
+            self.zchd.zchd_same_hold_activation_count,
+        ) {
             activation = pchords
                 .lock()
                 .0
